@@ -188,25 +188,25 @@ func (p *fakePool) Get(ctx context.Context) (backend.PooledConnect, error) {
 }
 
 func (p *fakePool) GetCheck(ctx context.Context) (backend.PooledConnect, error) { return p.Get(ctx) }
-func (p *fakePool) Open() error                                                  { return nil }
-func (p *fakePool) Addr() string                                                 { return fmt.Sprintf("db:%d", p.proxy) }
-func (p *fakePool) Datacenter() string                                           { return "" }
-func (p *fakePool) Close()                                                       {}
-func (p *fakePool) Put(pc backend.PooledConnect)                                 {}
-func (p *fakePool) SetCapacity(capacity int) (err error)                         { return nil }
-func (p *fakePool) SetIdleTimeout(idleTimeout time.Duration)                     {}
-func (p *fakePool) StatsJSON() string                                            { return "{}" }
-func (p *fakePool) Capacity() int64                                              { return 1 }
-func (p *fakePool) Available() int64                                             { return 1 }
-func (p *fakePool) Active() int64                                                { return 0 }
-func (p *fakePool) InUse() int64                                                 { return int64(p.out) }
-func (p *fakePool) MaxCap() int64                                                { return 1 }
-func (p *fakePool) WaitCount() int64                                             { return 0 }
-func (p *fakePool) WaitTime() time.Duration                                      { return 0 }
-func (p *fakePool) IdleTimeout() time.Duration                                   { return 0 }
-func (p *fakePool) IdleClosed() int64                                            { return 0 }
-func (p *fakePool) SetLastChecked()                                              {}
-func (p *fakePool) GetLastChecked() int64                                        { return 0 }
+func (p *fakePool) Open() error                                                 { return nil }
+func (p *fakePool) Addr() string                                                { return fmt.Sprintf("db:%d", p.proxy) }
+func (p *fakePool) Datacenter() string                                          { return "" }
+func (p *fakePool) Close()                                                      {}
+func (p *fakePool) Put(pc backend.PooledConnect)                                {}
+func (p *fakePool) SetCapacity(capacity int) (err error)                        { return nil }
+func (p *fakePool) SetIdleTimeout(idleTimeout time.Duration)                    {}
+func (p *fakePool) StatsJSON() string                                           { return "{}" }
+func (p *fakePool) Capacity() int64                                             { return 1 }
+func (p *fakePool) Available() int64                                            { return 1 }
+func (p *fakePool) Active() int64                                               { return 0 }
+func (p *fakePool) InUse() int64                                                { return int64(p.out) }
+func (p *fakePool) MaxCap() int64                                               { return 1 }
+func (p *fakePool) WaitCount() int64                                            { return 0 }
+func (p *fakePool) WaitTime() time.Duration                                     { return 0 }
+func (p *fakePool) IdleTimeout() time.Duration                                  { return 0 }
+func (p *fakePool) IdleClosed() int64                                           { return 0 }
+func (p *fakePool) SetLastChecked()                                             {}
+func (p *fakePool) GetLastChecked() int64                                       { return 0 }
 
 type fakeConn struct {
 	p *fakePool
@@ -252,27 +252,27 @@ func (c *fakeConn) Execute(sql string, maxRows int) (*mysql.Result, error) {
 func (c *fakeConn) ExecuteWithTimeout(sql string, maxRows int, timeout time.Duration) (*mysql.Result, error) {
 	return c.Execute(sql, maxRows)
 }
-func (c *fakeConn) Reconnect() error                                           { return nil }
-func (c *fakeConn) Close()                                                     { c.p.closed++ }
-func (c *fakeConn) IsClosed() bool                                             { return false }
-func (c *fakeConn) SetAutoCommit(v uint8) error                                { return nil }
-func (c *fakeConn) Begin() error                                               { return nil }
-func (c *fakeConn) Commit() error                                              { return nil }
-func (c *fakeConn) Rollback() error                                            { return nil }
-func (c *fakeConn) Ping() error                                                { return nil }
-func (c *fakeConn) PingWithTimeout(timeout time.Duration) error                { return nil }
-func (c *fakeConn) SetCharset(cs string, co mysql.CollationID) (bool, error)   { return false, nil }
-func (c *fakeConn) FieldList(table string, wc string) ([]*mysql.Field, error)  { return nil, nil }
-func (c *fakeConn) GetAddr() string                                            { return c.p.Addr() }
+func (c *fakeConn) Reconnect() error                                            { return nil }
+func (c *fakeConn) Close()                                                      { c.p.closed++ }
+func (c *fakeConn) IsClosed() bool                                              { return false }
+func (c *fakeConn) SetAutoCommit(v uint8) error                                 { return nil }
+func (c *fakeConn) Begin() error                                                { return nil }
+func (c *fakeConn) Commit() error                                               { return nil }
+func (c *fakeConn) Rollback() error                                             { return nil }
+func (c *fakeConn) Ping() error                                                 { return nil }
+func (c *fakeConn) PingWithTimeout(timeout time.Duration) error                 { return nil }
+func (c *fakeConn) SetCharset(cs string, co mysql.CollationID) (bool, error)    { return false, nil }
+func (c *fakeConn) FieldList(table string, wc string) ([]*mysql.Field, error)   { return nil, nil }
+func (c *fakeConn) GetAddr() string                                             { return c.p.Addr() }
 func (c *fakeConn) SetSessionVariables(f *mysql.SessionVariables) (bool, error) { return false, nil }
-func (c *fakeConn) SyncSessionVariables(f *mysql.SessionVariables) error       { return nil }
-func (c *fakeConn) WriteSetStatement() error                                   { return nil }
-func (c *fakeConn) GetConnectionID() int64                                     { return 1 }
-func (c *fakeConn) GetReturnTime() time.Time                                   { return time.Time{} }
-func (c *fakeConn) MoreRowsExist() bool                                        { return false }
-func (c *fakeConn) MoreResultsExist() bool                                     { return false }
-func (c *fakeConn) FetchMoreRows(result *mysql.Result, maxRows int) error      { return nil }
-func (c *fakeConn) ReadMoreResult(maxRows int) (*mysql.Result, error)          { return nil, nil }
+func (c *fakeConn) SyncSessionVariables(f *mysql.SessionVariables) error        { return nil }
+func (c *fakeConn) WriteSetStatement() error                                    { return nil }
+func (c *fakeConn) GetConnectionID() int64                                      { return 1 }
+func (c *fakeConn) GetReturnTime() time.Time                                    { return time.Time{} }
+func (c *fakeConn) MoreRowsExist() bool                                         { return false }
+func (c *fakeConn) MoreResultsExist() bool                                      { return false }
+func (c *fakeConn) FetchMoreRows(result *mysql.Result, maxRows int) error       { return nil }
+func (c *fakeConn) ReadMoreResult(maxRows int) (*mysql.Result, error)           { return nil, nil }
 
 // ---------------------------------------------------------------------------------------
 // oracle
